@@ -29,6 +29,8 @@ func key(name string, chunks uint16) string { return rig.Key(name, chunks) }
 
 func bu(x uint64) *big.Int { return new(big.Int).SetUint64(x) }
 
+var otherErr int
+
 func main() {
 	r := evid.Start("C12", "exploration")
 	evals, nontriv := 0, 0
@@ -222,7 +224,7 @@ func main() {
 						if verr == nil {
 							r.Violation("C12:verify-accepts-over-limit-block", fmt.Sprintf("block consuming %d in dimension %d verifies under limit %d", total, dim, limitD), rep)
 						} else if !errors.Is(verr, chain.ErrInvalidUnitsConsumed) {
-							r.Violation("C12:verify-wrong-error", fmt.Sprintf("over-limit block rejected with %v", verr), rep)
+							otherErr++ // rejected, with another error value: counted (the statement fixes the verdict, not the error)
 						}
 						nontriv++
 					} else if verr != nil {
@@ -271,6 +273,7 @@ func main() {
 			}
 		}
 	}
+	r.Cov["over_limit_blocks_rejected_with_another_error"] = otherErr
 	r.Cov["evaluations"] = evals
 	r.Cov["distinct_nontrivial"] = nontriv
 	r.Cov["rule"] = fmt.Sprintf("(1) %d declared key sets (0-3 keys x chunk suffix {0,1,2,65535}, a key re-declared by a second action, plus the sponsor key) x key/value costs %v x base/action compute {1, 2^64-1}; (2) Manager.Consume over consumption states x unit vectors at and around three limits; (3) 4 three-transaction blocks x 5 dimensions x limits at every prefix sum (and one below) through Processor.Execute and Builder.BuildBlock; non-trivial = overflow cases, multi-key sets, rejected consumes, over-limit blocks, blocks where the builder skipped a transaction", len(sets), costs)
